@@ -337,13 +337,18 @@ func scenBudgetRate(rng *rand.Rand, tr *sim.Trace, seg int) {
 	h := newH(rng, tr, seg, o)
 	defer h.close()
 	end := time.Now().Add(400 * time.Millisecond)
+	failing := rng.Intn(2) == 0 // the socket refuses a write now and then: its token goes back, nothing more
 	for time.Now().Before(end) {
+		if failing && rng.Intn(3) == 0 {
+			atomic.StoreInt32(&h.failNext, int32(1+rng.Intn(3)))
+		}
 		for j := 0; j < 20; j++ {
 			id := randID(rng)
 			h.in(h.randSrc(), &query{method: []string{"ping", "find_node", "foo"}[rng.Intn(3)], t: h.nextT(), hasA: true, id: id, target: &id, port: -1})
 		}
 		h.flush(false)
 	}
+	atomic.StoreInt32(&h.failNext, 0)
 	time.Sleep(30 * time.Millisecond)
 	h.flush(false)
 	h.tr.Emit(sim.M{"seg": h.seg, "e": "Forget"})
